@@ -600,6 +600,16 @@ def run_cases(rep, cases, tag):
     return outs
 
 
+def _diversify(rep):
+    """order the violations so that the first replay files show different kinds of failing input"""
+    seen, order = {}, []
+    for v in rep.violations:
+        k = v["signature"].split(":")[0]
+        seen[k] = seen.get(k, 0) + 1
+        order.append((seen[k], len(order), v))
+    rep.violations[:] = [v for _, _, v in sorted(order, key=lambda t: (t[0], t[1]))]
+
+
 def explore(rep, br, tier, seed):
     rng = random.Random(seed)
     _symctr[0] = 0
@@ -609,6 +619,7 @@ def explore(rep, br, tier, seed):
     for (p, exp, key, extra), o in list(zip(cases, outs))[:3]:
         rep.sample({"files": p.source(), "expect": exp[:120], "impl": {"outcome": o["outcome"], "base": o.get("base")}})
     rep.exhaustive_parts.append("every '. =' skip size 0..64 forward and 1..8 backward, with the base set")
+    _diversify(rep)
     rep.traces_validated = rep.evaluations
 
 
@@ -620,6 +631,7 @@ def search(rep, br, tier, seed):
     run_cases(sub, cases, "_search")
     rep.violations += sub.violations
     rep.evaluations += sub.evaluations
+    _diversify(rep)
 
 
 def replay(data):
